@@ -733,8 +733,13 @@ def gen_value(rng, ir, t, depth=3, top=False, alphabet='xml', subclass_ok=False)
                 continue
             rc_ = ft.get('ref') or (ft.get('array') or {}).get('ref') or (ft.get('seq') or {}).get('ref')
             if depth <= 0 and rc_ is not None and _is_sub(ir, name, rc_):
-                continue        # a member of the object's own class (or of an ancestor): the chain ends here
-            v = gen_value(rng, ir, ft, depth - 1, alphabet=alphabet, subclass_ok=subclass_ok)
+                if ft.get('min_occurs', 0) == 0:
+                    continue        # a member of the object's own class (or of an ancestor): the chain ends here
+                # ... unless the member is mandatory (then it is of an ancestor's class, or the class could have no instances):
+                # an object of exactly the declared class, whose own chain ends at once
+                v = gen_value(rng, ir, ft, depth - 1, alphabet=alphabet, subclass_ok=False)
+            else:
+                v = gen_value(rng, ir, ft, depth - 1, alphabet=alphabet, subclass_ok=subclass_ok)
             if v is not None:
                 # aliasing: two members of the same declared class may refer to one and the same object
                 if 'ref' in ft and not subclass_ok and ft['ref'] in prev and rng.random() < .3:
